@@ -263,6 +263,8 @@ def judge(spec, results):
         for cls, detail in r.viol:
             pr = cls.split('_', 1)[0]
             V.append({'prop': pr, 'cls': cls, 'detail': detail, 'sig': '%s:%s' % (pr, cls), 'tag': tag})
+    if hist.crash_class() == 'SLOW':
+        return V
     if hist.crashed():
         # is it the history or the call itself?  if some slice crashes the same way it is an input matter (C05's domain)
         same = [t for t, r in results.items() if t != 'hist' and r.crashed()]
